@@ -4,10 +4,9 @@ From Coq Require Import Strings.Byte Strings.String.
 Require Import CU.model.Prim CU.model.Types CU.model.Unicode CU.model.Card.
 Require Import CU.model.Block CU.model.Vbs CU.gen.GenConfig.
 Require Import CU.spec.LuhnSpec CU.spec.FramingSpec.
-Require Import CU.extract.Text.
+Require Import CU.extract.Text CU.extract.DriverIso.
 Import ListNotations.
 
-Definition opt {A} (o : option A) (k : A -> text) : text := match o with Some a => k a | None => bad_input end.
 
 Definition digits_of_text (s : str) : list nat := map (fun c => N.to_nat (c - 48)) s.
 
@@ -72,7 +71,10 @@ Definition run_line (line : text) : text :=
     | None =>
     match run_framing op args with
     | Some r => r
+    | None =>
+    match run_iso op args with
+    | Some r => r
     | None => T "BADOP"
-    end end
+    end end end
   | [] => T "BADOP"
   end.
